@@ -90,6 +90,9 @@ def register(reg):
                      + (["len(thresholds_max) == len(afs_input)", "all(not isnan(thresholds_max[j]) for j in range(0, len(afs_input)))"]
                         if variant is None else ["not isnan(thresholds_max)"]),
                      modifies=["Obs.features", "Track." + DICO],
+                     at={"for index, af_input in enumerate(afs_input):": [("comparison-over-all-features", "comp == %s" % comp("i", "len(afs_input)"))],
+                         "if not comp:": [("marker-written", "col(track, af_output, i) == (0 if comp else 1) and twf(track) and hasname(track, af_output)"),
+                                          ("earlier-markers-kept", "all(col(track, af_output, r) == (0 if %s else 1) for r in range(0, i))" % comp("r", "len(afs_input)"))]},
                      ensures=[("wf", "twf(track)"),
                               ("marker-listed", "hasname(track, af_output)"),
                               ("marker-is-one-exactly-where-the-thresholds-are-exceeded",
@@ -103,7 +106,10 @@ def register(reg):
                                 "all(implies(k != af_output, hasname(track, k) == old(hasname(track, k))) for k in strs)",
                                 "all(col(track, af_output, r) == (0 if %s else 1) for r in range(0, i))" % comp("r", "len(afs_input)"),
                                 (ALLCOLS_SAME % "af_output").replace("self", "track"), OTHER_OBS]),
-                            "1.1": LoopSpec(inv=["comp == %s" % comp("i", "index")])}), variant=variant)
+                            # (one feature only in the scalar form: the comparison is spelled out, no quantifier over the features)
+                            "1.1": LoopSpec(inv=["comp == %s" % comp("i", "index")] if variant is None else
+                                            ["0 <= index and index <= 1", "comp == ((%s) if index == 1 else (mode_comparaison == 1))" % comp("i", "1")])}),
+                variant=variant)
 
 
 DEPENDS = []
